@@ -86,6 +86,14 @@ func checkLimit(c limitCase) string {
 		if src.Closes != 1 {
 			return fmt.Sprintf("source exceeds N: source closed %d times when the error was reported, want 1", src.Closes)
 		}
+		// A consumer that reads on after the error (a retry loop, a reader wrapped by another layer) must not be
+		// told that the stream has ended cleanly after all: still no byte beyond the limit and still not EOF.
+		for k := 1; k <= 3; k++ {
+			n, e := lr.Read(make([]byte, k))
+			if n != 0 || !errors.Is(e, streams.ErrStreamTooLarge) {
+				return fmt.Sprintf("source of %d bytes exceeds N=%d and the stream failed with ErrStreamTooLarge, but Read #%d after that returned (%d, %v): the oversized source now looks like a complete one", c.Len, c.N, k, n, e)
+			}
+		}
 	case faulty:
 		if err == nil {
 			return fmt.Sprintf("source fails at offset %d but stream ended in clean EOF after %d bytes", c.FailAt, len(out))
